@@ -6,7 +6,8 @@
    TLC has 32-bit integers and no floats, so a number is
        [k |-> "num", b |-> base, o |-> offset, h |-> BOOLEAN]  = base + o (+ 1/2 when h)
    where base is a NAMED boundary (i8min .. u64max, the float64 neighbours of
-   2^63 and 2^64, 2^53, the largest whole second count of a Duration) whose exact
+   2^63 and 2^64, 2^53, the largest whole second count of a Duration, +-MaxFloat32
+   and their float64 neighbours beyond) whose exact
    value only the harness knows (math/big).  Order is lexicographic on
    (rank of base, offset, half); truncation toward zero and every range check are
    small-integer arithmetic on that key.  NaN, +Inf, -Inf are extra points.
@@ -20,9 +21,9 @@
      "DurationNoOverflowCheck" seconds * 1e9 was not range-checked                      *)
 EXTENDS Integers, Sequences, FiniteSets, TLC
 
-Bases == << "i64min_fprev", "i64min", "dmin", "i32min", "i16min", "i8min", "zero", "i8max", "u8max",
+Bases == << "f32min_fprev", "f32min", "i64min_fprev", "i64min", "dmin", "i32min", "i16min", "i8min", "zero", "i8max", "u8max",
             "i16max", "u16max", "i32max", "u32max", "dmax", "two53", "i64max_fprev", "i64max",
-            "u64max_fprev", "u64max" >>
+            "u64max_fprev", "u64max", "f32max", "f32max_fnext" >>
 RankTab == [i \in 1..Len(Bases) |-> Bases[i]]
 Rank(b) == CHOOSE i \in 1..Len(Bases) : Bases[i] = b
 Num(b, o, h) == [k |-> "num", b |-> b, o |-> o, h |-> h]
@@ -86,7 +87,11 @@ Convert(D, src, n, tgt) ==
          LET r == ToUint64(D, src, n) IN
          IF r = Err \/ r = Wrapped THEN (IF r = Wrapped /\ tgt \notin {"uint64", "uint"} THEN [ok |-> "wrapped_or_err"] ELSE r)
          ELSE IF InRange(r.v, "zero", UintTargets[tgt]) THEN r ELSE Err
-    [] tgt \in {"float64", "float32"} -> Same
+    [] tgt = "float64" -> Same
+       \* float32: the setting is read as a float64 (a text: the float64 nearest to it) and that must lie within
+       \* +-MaxFloat32; f32max_fnext / f32min_fprev are the float64 neighbours beyond, every number whose base they are
+       \* rounds to them, every number based at f32max / f32min rounds back to the bound itself.  Infinities pass.
+    [] tgt = "float32" -> IF n.k = "num" /\ (Rank(n.b) >= Rank("f32max_fnext") \/ Rank(n.b) <= Rank("f32min_fprev")) THEN Err ELSE Same
     [] tgt = "duration" ->
          IF src = "str" THEN (IF n = Zero THEN Same ELSE Err)    \* a bare number is no duration text, except "0"
          ELSE IF n.k # "num" THEN (IF "DurationNoOverflowCheck" \in D THEN Wrapped ELSE Err)
